@@ -139,7 +139,29 @@ def run(ctx, rep):
                 ok = True
                 why = None
                 user_calls = [(bi, t) for bi, t in B.calls() if t.get("resolved") == "unresolved" or t.get("indirect")]
-                if len(user_calls) != 1:
+                deleg = [(bi, t) for bi, t in B.calls() if atomics.callee_of(t) in F.bodies and (F.body(atomics.callee_of(t)).get("impl") or {}).get("trait") == DE and F.body(atomics.callee_of(t)).get("name") == "deserialize" and F.handle_name(F.body(atomics.callee_of(t))["impl"]["self_ty"]) in ("Arc", "UniqueArc") and atomics.callee_of(t) != key]
+                if not user_calls and len(deleg) == 1:
+                    # `Arc::deserialize` = the other handle's `deserialize` (judged by this same rule) followed by a count-neutral
+                    # conversion of the `Ok` value
+                    bi, t = deleg[0]
+                    if not linear_into_call(b, 1, t, 0):
+                        ok, why = False, "the deserializer is not handed, exactly once and by move, to the delegate's deserialize"
+                    cons = sole_consumer(b, t["dest"]["l"])
+                    o0 = B.origin_local(0)
+                    if o0.get("kind") == "call" and o0["term"] is t:
+                        pass  # returned as is
+                    elif cons is not None and atomics.callee_of(cons[1]) == "<core::result::Result<T, E>>::map" and cons[2] == 0:
+                        conv_ok = False
+                        for a in cons[1]["resolved"]["args"]:
+                            if "t" in a:
+                                tt = F.ty(a["t"])
+                                if tt["k"] in ("fndef", "closure") and tt["def"] in F.bodies and c03.is_move_class(E, tt["def"]):
+                                    conv_ok = True
+                        if not conv_ok:
+                            ok, why = False, "the function mapped over the delegate's Ok value is not a count-neutral handle conversion"
+                    else:
+                        ok, why = False, "the delegate's Result is consumed by something other than a single `Result::map` with a count-neutral conversion"
+                elif len(user_calls) != 1:
                     ok, why = False, "expected exactly one call into user code (the payload's Deserialize::deserialize), found %d: %s" % (len(user_calls), [atomics.callee_of(t) for _b, t in user_calls])
                 else:
                     bi, t = user_calls[0]
